@@ -130,7 +130,14 @@ def eval_measures(rec):
         chk("perimeter", "length", rec["boundary"], lambda: P.perimeter)
         chk("circumference", "length", rec["boundary"], lambda: P.circumference)
         e2 = ev(rec["ecc2"], env)
-        chk("eccentricity", "dimensionless", {"sqrt": rec["ecc2"]}, lambda: P.eccentricity, 1.0)
+        # e = sqrt(1 - b^2/a^2) is ill-conditioned near a tie (an error of one ulp in the argument moves e by 1e-16 / (2 e)):
+        # the comparison is made on e^2, relative 1e-9 plus a few ulps of 1
+        try:
+            o = float(P.eccentricity)
+            if not (math.isfinite(o) and abs(o * o - float(e2)) <= 1e-9 * float(e2) + 1e-15):
+                bad("eccentricity", "value differs from the defining integral", math.sqrt(float(e2)), o)
+        except Exception as exn:
+            bad("eccentricity", f"raised {type(exn).__name__}: {exn}", None)
         pm = [ev(t, env) for t in rec["planar"]]
         mag = math.sqrt(sum(float(x) ** 2 for x in pm))
         n0 = len(out)
